@@ -23,6 +23,55 @@ theorem keys_insert_present (m : GoMap K V) (k : K) (v : V) (h : k ∈ m.keys) :
   apply List.map_congr_left
   intro e _
   by_cases he : e.1 = k <;> simp [he]
+
+theorem ents_insert_present (m : GoMap K V) (k : K) (v : V) (h : k ∈ m.keys) :
+    (m.insert k v).ents = m.ents.map (fun e => if e.1 = k then (k, v) else e) := by
+  have hc : m.contains k = true := by simpa using h
+  simp only [insert, hc, if_true]
+
+theorem ents_insert_absent (m : GoMap K V) (k : K) (v : V) (h : k ∉ m.keys) : (m.insert k v).ents = (k, v) :: m.ents := by
+  have hc : m.contains k = false := by simpa using h
+  simp only [insert, hc]
+  rfl
+
+theorem ents_erase (m : GoMap K V) (k : K) : (m.erase k).ents = m.ents.filter (fun e => ¬ e.1 = k) := rfl
+
+theorem filter_mapIf (l : List (K × V)) (k : K) (v : V) :
+    (l.map (fun e => if e.1 = k then (k, v) else e)).filter (fun e => ¬ e.1 = k) = l.filter (fun e => ¬ e.1 = k) := by
+  induction l with
+  | nil => rfl
+  | cons e rest ih =>
+    simp only [decide_not] at ih ⊢
+    by_cases he : e.1 = k <;> simp [he, ih]
+
+theorem keys_mapIf (l : List (K × V)) (k : K) (v : V) :
+    (l.map (fun e => if e.1 = k then (k, v) else e)).map (·.1) = l.map (·.1) := by
+  induction l with
+  | nil => rfl
+  | cons e rest ih =>
+    by_cases he : e.1 = k <;> simp [he, ih]
+
+theorem get?_eq (m : GoMap K V) (k : K) : m.get? k = (m.ents.find? (fun e => e.1 = k)).map (·.2) := rfl
+
+theorem get?_isSome_of_mem (m : GoMap K V) (k : K) (h : k ∈ m.keys) : ∃ v, m.get? k = some v ∧ (k, v) ∈ m.ents := by
+  cases m with | mk ents =>
+  simp only [keys, List.mem_map] at h
+  obtain ⟨e, he, hk⟩ := h
+  induction ents with
+  | nil => cases he
+  | cons x rest ih =>
+    by_cases hx : x.1 = k
+    · refine ⟨x.2, ?_, ?_⟩
+      · simp [get?, hx]
+      · have : x = (k, x.2) := by rw [← hx]
+        rw [← this]; exact List.mem_cons_self
+    · have he' : e ∈ rest := by
+        rcases List.mem_cons.1 he with h1 | h1
+        · exact absurd (h1 ▸ hk) hx
+        · exact h1
+      obtain ⟨v, hv1, hv2⟩ := ih he'
+      refine ⟨v, ?_, List.mem_cons_of_mem _ hv2⟩
+      simpa [get?, hx] using hv1
 end GoMap
 
 theorem iand_ofNat (m n : Nat) : iand (m : Int) (n : Int) = ((m &&& n : Nat) : Int) := rfl
